@@ -36,6 +36,8 @@ type DCVictim struct {
 	CloseAtMs int    `json:"close_at_ms"`
 	Reconnect bool   `json:"reconnect"`
 	QTimeout  uint16 `json:"q_timeout"`
+	BadWill   bool   `json:"bad_will,omitempty"`   // its first will addresses a database that does not exist (answered UNKNOWN_DB when it runs)
+	Heir      bool   `json:"heir,omitempty"`       // another connection queues behind its first hold shortly before it ends
 	Admin     bool   `json:"admin,omitempty"`      // with Text: the text session is opened inside a binary connection by the ADMIN command
 	Text      bool   `json:"text,omitempty"`       // a text (RESP) connection: no client id, at most one request left queued
 	MoreWills int    `json:"more_wills,omitempty"` // further will LOCKs (keys 10v+8..) registered after the three standard ones
@@ -101,6 +103,20 @@ func genDisconnect(prop string, seed uint64, tier string) *Scenario {
 		vc.NQueued = vc.Chain + 1
 		vc.CloseAtMs = 300 + ch.Intn(900)
 		vc.CloseMode = []string{"client", "client", "garbage", "server_reset"}[ch.Intn(4)]
+	}
+	if bw := ssched.Sub(seed, "badwill"); bw.Intn(4) == 0 {
+		for i := range body.Victims {
+			if vc := &body.Victims[i]; vc.Wills && !vc.Text && bw.Intn(2) == 0 {
+				vc.BadWill = true
+			}
+		}
+	}
+	if he := ssched.Sub(seed, "heir"); he.Intn(3) == 0 {
+		for i := range body.Victims {
+			if vc := &body.Victims[i]; vc.NHolds > 0 && vc.Chain == 0 && he.Intn(2) == 0 {
+				vc.Heir = true
+			}
+		}
 	}
 	if z := ssched.Sub(seed, "zeroid"); z.Intn(4) == 0 {
 		body.ZeroIdBystander = true
@@ -345,6 +361,12 @@ func runDisconnect(w *World) {
 					send(c, cid, &idx, OpSpec{Cmd: 1, Key: 10*v + 9, Lid: lid, Expried: 5, Count: 0}, true)
 					send(c, cid, &idx, OpSpec{Cmd: 2, Key: 10*v + 9, Lid: lid}, true)
 				}
+				if vc.Wills && vc.BadWill {
+					// a will that will be answered UNKNOWN_DB when it runs (database 9 does not exist): the
+					// wills registered after it must run all the same
+					send(c, cid, &idx, OpSpec{Cmd: protocol.COMMAND_WILL_UNLOCK, Db: 9, Key: 10 * v, Lid: lid}, false)
+					w.probe("will_sets_with_a_failing_will")
+				}
 				if vc.Wills {
 					send(c, cid, &idx, OpSpec{Cmd: protocol.COMMAND_WILL_LOCK, Key: 10 * v, Lid: lid, Expried: 300, Count: 0, Rcount: 5}, false)
 					send(c, cid, &idx, OpSpec{Cmd: protocol.COMMAND_WILL_UNLOCK, Key: 10 * v, Lid: lid}, false)
@@ -360,6 +382,7 @@ func runDisconnect(w *World) {
 				for k := 0; k < vc.NHolds; k++ {
 					send(c, cid, &idx, OpSpec{Cmd: 1, Key: 10*v + 2 + k, Lid: lid, Expried: 8, Count: 0}, true)
 				}
+				holdAt := w.now()
 				queuedAt := w.now()
 				var qrecs []*ReqRec
 				for q := 0; q < vc.NQueued; q++ {
@@ -390,6 +413,17 @@ func runDisconnect(w *World) {
 						}
 					}
 				})
+				var heir *ReqRec
+				if vc.Heir && held > 0 {
+					// another client queues behind the first hold of the connection that is about to end: the hold
+					// stays until its term is over, then the queue is served as after any expiry
+					if hc, hcid, err := newConn(0); err == nil {
+						hidx := 0
+						heir = binSend(hc, hcid, &hidx, OpSpec{Cmd: 1, Key: 10*v + 2, Lid: 600 + v, Timeout: 30, Expried: 2, Count: 0}, false)
+						sleep(30 * time.Millisecond)
+						w.probe("heirs_queued_behind_holds")
+					}
+				}
 				switch {
 				case vc.Text && vc.CloseMode == "client":
 					tc.Close()
@@ -546,6 +580,20 @@ func runDisconnect(w *World) {
 					}
 				})
 				_ = closedAt
+				if heir != nil {
+					if d := holdAt.Add(10500 * time.Millisecond).Sub(w.now()); d > 0 {
+						sleep(d)
+					}
+					if len(heir.Replies) == 0 || heir.Replies[0].Result != protocol.RESULT_SUCCED {
+						res := -1
+						if len(heir.Replies) > 0 {
+							res = int(heir.Replies[0].Result)
+						}
+						w.violate("C18", "queue_behind_hold_of_closed_connection_not_served", "victim %d (closed by %s): its hold on key %d (8 s term) has ended, the request that another connection queued behind it (timeout 30 s) has not been granted %.1f s after the hold was taken (reply: %d, -1 = none)", v, vc.CloseMode, 10*v+2, w.now().Sub(holdAt).Seconds(), res)
+					} else {
+						w.probe("heirs_served")
+					}
+				}
 			})
 		}
 		for b := 0; b < body.NBystanders; b++ {
